@@ -31,6 +31,13 @@ def get_reserved_words():
         if '_' not in word:
             # exclude combinations
             reserved.add(word)
+        else:
+            # a combination name (GROUP_BY) is not a word of the language, but some keywords
+            # are spelled with an underscore (ML_ENGINE, PRIMARY_KEY, PERSIST_ONLY)
+            for lexer in (SQLLexer, MindsDBLexer):
+                pattern = getattr(lexer, word, None)
+                if isinstance(pattern, str) and re.fullmatch(pattern, word, flags=re.IGNORECASE):
+                    reserved.add(word)
     return reserved
 
 
